@@ -419,6 +419,9 @@ def run(ctx):
         _layout.check_layout(ctx, _SP.load_spec(), u.name, 'USER_DATA', rule='S5')
         import C01 as _c01s
         _c01s.reader_string(ctx, 'S5')          # the record's text is the bytes the chunk stores, all of them (seed C10-r trimmed trailing NULs)
+        import invariants as _inv13
+        ok13_, why13_ = _inv13.Inv(ctx).get('I13')      # a record of layer 0's cel must not show up as that of layer 65536 (seed C10-s dropped the cap)
+        ctx.inst('S6', 'layer ids fit u16', ok13_, why13_, None, key='asefile::layer::LayersData::from_vec|S6|I13')
         strs = q.calls(u, common.READER + 'string')
         for c in strs:
             ok = flag_guard(c.bb, 1)
